@@ -50,13 +50,13 @@ func main() {
 		c.Floor("day_boundaries_crossed_then_cycled", int64(n)/10/sh, c.Counter("day_boundaries_crossed_then_cycled"))
 		c.Floor("lines_after_cycle_in_new_file", int64(n)/5/sh, c.Counter("lines_after_cycle_in_new_file"))
 
-		n = c.N(640, 12800)
+		n = c.N(640, 6400)
 		secRotationFine(c, n)
 		c.Floor("fine_day_boundaries_crossed_then_cycled", int64(n)/10/sh, c.Counter("fine_day_boundaries_crossed_then_cycled"))
 		c.Floor("fine_crossings_by_steps_up_to_one_minute", int64(n)/25/sh, c.Counter("fine_crossings_by_steps_up_to_one_minute"))
 		c.Floor("fine_lines_after_cycle_in_current_file", int64(n)/5/sh, c.Counter("fine_lines_after_cycle_in_current_file"))
 
-		n = c.N(80, 1600)
+		n = c.N(80, 800)
 		secRotationConstruct(c, n)
 		c.Floor("construct_date_changed_after_creation_then_cycled", int64(n)/10/sh, c.Counter("construct_date_changed_after_creation_then_cycled"))
 
